@@ -108,7 +108,11 @@ def step (st : St) (_n : Nat) (ws : List String) : Except String (St × Nat) :=
           .error s!"goroutine {t} got chunk {ic} [{io},+{il}); model chunk {g.reg.chunk} [{g.reg.off},+{g.reg.len})"
         else
           let res := resultOf (fun _ => base) g
-          if rc < 0 || res != (⟨rc.toNat, ro, rl⟩ : Region) then
+          -- an empty slice carries no usable address (Go keeps the old pointer when the new
+          -- capacity is 0): only its chunk and length are compared
+          let same := if rl == 0 then res.len == 0 && res.chunk == rc.toNat
+                      else res == (⟨rc.toNat, ro, rl⟩ : Region)
+          if rc < 0 || !same then
             .error s!"goroutine {t} received chunk {rc} [{ro},+{rl}); model chunk {res.chunk} [{res.off},+{res.len})"
           else .ok ({ st with s := some s' }, 2)
       | p, _ => .error s!"goroutine {t} was handed a slice; model: {showPc p}"
